@@ -11,7 +11,7 @@ R5 FitsTiler.tile: every returning path passes a populate step (tiling, HiPS pro
 """
 import ast
 
-from sa import sym, template
+from sa import sym, boolalg, template
 from sa.sym import show, num, num_value, atoms_of
 from sa.cfg import CFG, enclosing_stmts
 from sa.model import dotted, own_calls, own_nodes, callee_attr
@@ -284,10 +284,13 @@ def _r5_fits_tiler(run):
     r = ev.run(f.node)
     rm = [e for e in r.events if e.kind == "call" and show(e.term[1]) in ("shutil.rmtree",)]
     ok = False
+    pio_dirs = [e.term[2][0] for e in r.events if e.kind == "call" and show(e.term[1]).endswith("PyramidIO") and e.term[2]]
     for e in rm:
         conds = [c for c in e.pc if c[0] != "loop"]
-        if e.term[2] and e.term[2][0] == ("attr", ("sym", "self"), "out_dir") and (("sym", "override"), True) in conds \
-                and any("isdir" in show(c[0]) and c[1] for c in conds):
+        target = e.term[2][0] if e.term[2] else None
+        isdir = [c[0] for c in conds if c[1] and c[0][0] == "call" and show(c[0][1]) in ("os.path.isdir", "os.path.exists") and c[0][2]]
+        is_out = target is not None and (target == ("attr", ("sym", "self"), "out_dir") or target in pio_dirs)
+        if is_out and boolalg.implies(boolalg.conj(conds), ("sym", "override")) is True and any(c[2][0] == target for c in isdir):
             ok = True
     if ok:
         run.holds("C17.R5", f, rm[0].node, "override: the existing output directory is removed before tiling (no stale deeper layers)")
